@@ -455,17 +455,24 @@ Proof.
     exact HC.
 Qed.
 
-Lemma W_write_dimcoord : forall c st st' v d,
-  Inv st -> W st -> ck c = KDim -> write_dimcoord c st = (st', v, d) -> W st'.
+Lemma W_create_dimcoord : forall c st st' v d,
+  Inv st -> W st -> ck c = KDim -> create_dimcoord c st = (st', v, d) -> W st'.
 Proof.
-  intros c st st' v d HI HW K H. unfold write_dimcoord in H.
-  destruct (lookup false c None (seen st)) as [e|] eqn:L.
-  - inversion H; subst. apply W_add_seen. exact HW.
-  - assert (Hok : vok (length (vt st)) (mkV c [DCoord (length (vt st))])).
-    { split; simpl; intros; [congruence|reflexivity]. }
-    pose proof (W_create c [DCoord (length (vt st))] st HI HW Hok ltac:(congruence)) as HC.
-    destruct (new_var c [DCoord (length (vt st))] st) as [st1 v1] eqn:N. inversion H; subst; clear H.
-    exact HC.
+  intros c st st' v d HI HW K H. unfold create_dimcoord in H.
+  assert (Hok : vok (length (vt st)) (mkV c [DCoord (length (vt st))])).
+  { split; simpl; intros; [congruence|reflexivity]. }
+  pose proof (W_create c [DCoord (length (vt st))] st HI HW Hok ltac:(congruence)) as HC.
+  destruct (new_var c [DCoord (length (vt st))] st) as [st1 v1] eqn:N. inversion H; subst; clear H.
+  exact HC.
+Qed.
+
+Lemma W_write_dimcoord : forall fx c used st st' v d,
+  Inv st -> W st -> ck c = KDim -> write_dimcoord fx c used st = (st', v, d) -> W st'.
+Proof.
+  intros fx c used st st' v d HI HW K H. unfold write_dimcoord in H.
+  destruct (lookup false c None (seen st)) as [e|] eqn:L; [|eapply W_create_dimcoord; eauto].
+  destruct (fx && dim_used (hd (DFree 0) (se_nd e)) used); [eapply W_create_dimcoord; eauto|].
+  inversion H; subst. apply W_add_seen. exact HW.
 Qed.
 
 Lemma W_write_list : forall ign k f dims l st st' vs,
@@ -553,9 +560,9 @@ Proof.
   intros f dcs. induction dcs as [|oc r IH]; intros a st used dv loc st' used' dv' loc' HI HW HF HU HN HL H; simpl in H.
   - inversion H; subst. splits; auto.
   - destruct oc as [it|].
-    + destruct (write_dimcoord (dimcomp f a it) st) as [[st1 v] d] eqn:WD.
-      destruct (inv_write_dimcoord _ _ _ _ _ HI WD) as (I1 & _ & (nd & Hh & Hd) & _ & FD & NF).
-      assert (W1 : W st1) by (exact (W_write_dimcoord (dimcomp f a it) st st1 v d HI HW eq_refl WD)).
+    + destruct (write_dimcoord true (dimcomp f a it) used st) as [[st1 v] d] eqn:WD.
+      destruct (inv_write_dimcoord _ _ _ _ _ _ _ HI WD) as (I1 & _ & (nd & Hh & Hd) & _ & FD & NF).
+      assert (W1 : W st1) by (exact (W_write_dimcoord true (dimcomp f a it) used st st1 v d HI HW eq_refl WD)).
       assert (Hd' : d = DCoord v).
       { rewrite (holds_dim_nd _ _ _ _ (proj1 W1) Hh eq_refl eq_refl) in Hd. exact Hd. }
       assert (FE : frees (used ++ [d]) = frees used) by (rewrite frees_app, Hd'; simpl; apply app_nil_r).
@@ -608,7 +615,7 @@ Proof.
   intros fx f dcs. induction dcs as [|oc r IH]; intros a st used dv loc st' used' dv' loc' H; simpl in H.
   - inversion H; subst. exists [], []. rewrite !app_nil_r. simpl. auto.
   - destruct oc as [it|].
-    + destruct (write_dimcoord (dimcomp f a it) st) as [[st1 v] d].
+    + destruct (write_dimcoord fx (dimcomp f a it) used st) as [[st1 v] d].
       destruct (IH _ _ _ _ _ _ _ _ _ H) as (ud & vd & E1 & E2 & F).
       exists (d :: ud), (Some v :: vd). rewrite E1, E2, <- !app_assoc. simpl. splits; auto.
       intro; discriminate.
@@ -1446,18 +1453,22 @@ Proof.
   split; [repeat constructor|]. split; [vm_compute; reflexivity|]. apply Nat.ltb_lt. vm_compute. reflexivity.
 Qed.
 
-(* two equal dimension coordinates in one field: outside the guard, and the
-   conclusion about distinct dimensions really fails *)
+(* two equal dimension coordinates in one field (outside the guard wfb): the
+   code before commit a6b4a67 wrote both axes on one netCDF dimension, even in
+   a file of its own; the current rule gives two dimensions *)
 Definition wH : field :=
   mkField [3; 3] [Some (mkI [] 20 None); Some (mkI [] 20 None)] [] [] [] [] [] None [].
 
-Lemma wf_guard_needed :
-  wfb wH = false /\ exists o, In o (snd (write_fields true [wH] st0)) /\ ~ NoDup (o_dims o).
+Lemma old_equal_dimcoords_collapse_refuted :
+  wfb wH = false /\
+  (exists o, In o (snd (write_fields false [wH] st0)) /\ ~ NoDup (o_dims o)) /\
+  (forall o, In o (snd (write_fields true [wH] st0)) -> NoDup (o_dims o)).
 Proof.
-  split; [vm_compute; reflexivity|].
-  exists (mkO [DCoord 0; DCoord 0] [Some 0%nat; Some 0%nat] [] [] [] [] [] []). split.
-  - vm_compute. auto.
-  - intro H. inversion H as [|? ? N _]; subst. apply N. left. reflexivity.
+  split; [vm_compute; reflexivity|]. split.
+  - exists (mkO [DCoord 0; DCoord 0] [Some 0%nat; Some 0%nat] [] [] [] [] [] []). split.
+    + vm_compute. auto.
+    + intro H. inversion H as [|? ? N _]; subst. apply N. left. reflexivity.
+  - vm_compute. intros o [<-|[]]; simpl. repeat constructor; simpl; intuition discriminate.
 Qed.
 
 Lemma roundtrip_singles : forall fs,
@@ -1468,3 +1479,136 @@ Lemma roundtrip_singles : forall fs,
 Proof.
   intros fs WF G. split; [exact (roundtrip_concat_singles fs WF G)|exact (roundtrip_as_single_files fs WF G)].
 Qed.
+
+(* ================================================================ Part 6: compression variables *)
+Definition cvar_ok (lx : bool) (vtab : list ventry) (cf : cfield) (x : fout * option nat) : Prop :=
+  match cf_c cf, snd x with
+  | Some cs, Some v => exists nd, holds vtab v (ccomp cs) nd /\ (lx = true -> nd = meaning cs (o_dims (fst x)))
+  | None, None => True
+  | _, _ => False
+  end.
+
+Lemma inv_write_cvar : forall lx c m st st' v,
+  Inv st -> ck c <> KAnc -> write_cvar lx c m st = (st', v) ->
+  Inv st' /\ Ext st st' /\ exists nd, holds (vt st') v c nd /\ (lx = true -> nd = m).
+Proof.
+  intros lx c m st st' v HI Hk H. unfold write_cvar in H.
+  destruct (lookup false c (if lx then Some m else None) (seen st)) as [e|] eqn:L.
+  - inversion H; subst; clear H.
+    destruct (inv_add_found false c _ st e HI ltac:(discriminate) L) as [H1 H2].
+    apply lookup_some in L as (_ & _ & Hnd). splits; auto.
+    + exists []. simpl. rewrite app_nil_r. reflexivity.
+    + exists (se_nd e). split; [exact H2|]. intros ->. simpl in Hnd. apply dims_eqb_eq in Hnd. congruence.
+  - destruct (inv_new_var _ _ _ _ _ HI H) as (H1 & H2 & H3 & _). splits; auto.
+    exists m. auto.
+Qed.
+
+Lemma cvar_ok_ext : forall lx st st' cf x, Ext st st' -> cvar_ok lx (vt st) cf x -> cvar_ok lx (vt st') cf x.
+Proof.
+  intros lx st st' cf x E H. unfold cvar_ok in *. destruct (cf_c cf), (snd x); auto.
+  destruct H as (nd & Hh & Hn). exists nd. split; [eapply holds_ext; eauto|exact Hn].
+Qed.
+
+Lemma ccomp_kind : forall cs, ck (ccomp cs) <> KAnc.
+Proof. intros []; simpl; discriminate. Qed.
+
+Lemma inv_write_cfield : forall lx cf st st' x,
+  Inv st -> write_cfield lx cf st = (st', x) -> Inv st' /\ Ext st st' /\ cvar_ok lx (vt st') cf x.
+Proof.
+  intros lx cf st st' x HI H. unfold write_cfield in H.
+  destruct (write_field true (cf_f cf) st) as [st1 o] eqn:WF.
+  destruct (inv_write_field _ _ _ _ _ HI WF) as (I1 & E1 & _).
+  unfold cvar_ok. destruct (cf_c cf) as [cs|].
+  - destruct (write_cvar lx (ccomp cs) (meaning cs (o_dims o)) st1) as [st2 v] eqn:WC.
+    inversion H; subst; clear H. simpl.
+    destruct (inv_write_cvar _ _ _ _ _ _ I1 (ccomp_kind cs) WC) as (I2 & E2 & Hh).
+    splits; auto. eapply Ext_trans; eauto.
+  - inversion H; subst; clear H. simpl. auto.
+Qed.
+
+Lemma inv_write_cfields : forall lx cfs st st' xs,
+  Inv st -> write_cfields lx cfs st = (st', xs) ->
+  Inv st' /\ Ext st st' /\ Forall2 (cvar_ok lx (vt st')) cfs xs.
+Proof.
+  intros lx cfs. induction cfs as [|cf r IH]; intros st st' xs HI H; simpl in H.
+  - inversion H; subst. splits; auto. apply Ext_refl.
+  - destruct (write_cfield lx cf st) as [st1 x] eqn:W.
+    destruct (write_cfields lx r st1) as [st2 xs'] eqn:R. inversion H; subst; clear H.
+    destruct (inv_write_cfield _ _ _ _ _ HI W) as (H1 & H2 & H3).
+    destruct (IH _ _ _ H1 R) as (H4 & H5 & H6).
+    splits; auto.
+    + eapply Ext_trans; eauto.
+    + constructor; [|exact H6]. eapply cvar_ok_ext; eauto.
+Qed.
+
+(* what the file says about a field's compression variable *)
+Definition cvar_own (st : wst) (cf : cfield) (x : fout * option nat) : Prop :=
+  match cf_c cf, snd x with
+  | Some cs, Some v => vtok st v = ctok (ccomp cs) /\ cvar_meaning st v = meaning cs (o_dims (fst x))
+  | None, None => True
+  | _, _ => False
+  end.
+
+(* Repaired rule: the list / count / index variable that a field ends up with
+   holds the field's own values and refers to the field's own dimensions,
+   whatever else is in the list and in whatever order. *)
+Lemma compression_variable_own : forall cfs st xs,
+  write_cfields true cfs st0 = (st, xs) -> Forall2 (cvar_own st) cfs xs.
+Proof.
+  intros cfs st xs H. destruct (inv_write_cfields _ _ _ _ _ Inv_st0 H) as (_ & _ & F).
+  eapply Forall2_impl'; [|exact F]. intros cf x Hc. unfold cvar_ok, cvar_own in *.
+  destruct (cf_c cf) as [cs|], (snd x) as [v|]; auto.
+  destruct Hc as (nd & (ve & N & C & D & _) & Hn). specialize (Hn eq_refl). subst nd.
+  apply eq_content_iff in C as (T & _). unfold vtok, cvar_meaning, vnd. rewrite N. split; congruence.
+Qed.
+
+(* ... hence a compression variable is shared only between fields for which
+   it means the same thing *)
+Lemma compression_shared_same_meaning : forall cfs st xs i j cf1 cf2 x1 x2 cs1 cs2 v,
+  write_cfields true cfs st0 = (st, xs) ->
+  nth_error cfs i = Some cf1 -> nth_error xs i = Some x1 ->
+  nth_error cfs j = Some cf2 -> nth_error xs j = Some x2 ->
+  cf_c cf1 = Some cs1 -> cf_c cf2 = Some cs2 -> snd x1 = Some v -> snd x2 = Some v ->
+  ctok (ccomp cs1) = ctok (ccomp cs2) /\ meaning cs1 (o_dims (fst x1)) = meaning cs2 (o_dims (fst x2)).
+Proof.
+  intros cfs st xs i j cf1 cf2 x1 x2 cs1 cs2 v H N1 M1 N2 M2 C1 C2 S1 S2.
+  pose proof (compression_variable_own _ _ _ H) as F.
+  assert (G : forall k cf x, nth_error cfs k = Some cf -> nth_error xs k = Some x -> cvar_own st cf x).
+  { clear - F. induction F; intros k cf x' A B; destruct k; simpl in *; try discriminate.
+    - inversion A; inversion B; subst; assumption.
+    - eapply IHF; eauto. }
+  pose proof (G _ _ _ N1 M1) as O1. pose proof (G _ _ _ N2 M2) as O2.
+  unfold cvar_own in O1, O2. rewrite C1, S1 in O1. rewrite C2, S2 in O2.
+  destruct O1 as [A1 B1]. destruct O2 as [A2 B2]. split; congruence.
+Qed.
+
+(* the code before the repair: two gathered fields with equal list values and
+   different compressed axes share one list variable, which keeps the first
+   field's compress attribute; likewise a count / an index variable is shared
+   onto the instance dimension of the earlier field *)
+Definition gA : cfield :=
+  mkCF (mkField [2; 2; 3] [Some (mkI [] 10 None); Some (mkI [] 14 None); Some (mkI [] 18 None)] [] [] [] [] [] None [])
+       (Some (CGath 7 1 2)).
+Definition gB : cfield :=
+  mkCF (mkField [2; 3; 2] [Some (mkI [] 10 None); Some (mkI [] 22 None); Some (mkI [] 26 None)] [] [] [] [] [] None [])
+       (Some (CGath 7 1 2)).
+Definition rA (k : cspec) : cfield :=
+  mkCF (mkField [3; 3] [None; None] [] [mkI [0%nat] 40 None] [] [] [] None []) (Some k).
+Definition rB (k : cspec) : cfield :=
+  mkCF (mkField [3; 3] [None; None] [] [mkI [0%nat] 44 None] [] [] [] None []) (Some k).
+
+Definition own_all (lx : bool) (cfs : list cfield) : bool :=
+  let '(st, xs) := write_cfields lx cfs st0 in
+  forallb (fun p => match cf_c (fst p), snd (snd p) with
+                    | Some cs, Some v => dims_eqb (cvar_meaning st v) (meaning cs (o_dims (fst (snd p))))
+                    | _, _ => true end) (combine cfs xs).
+
+Lemma old_compression_variable_shared_refuted :
+  own_all false [gA; gB] = false /\ own_all false [gB; gA] = false /\
+  own_all false [rA (CCont 3); rB (CCont 3)] = false /\ own_all false [rA (CIdx 3); rB (CIdx 3)] = false /\
+  own_all true [gA; gB] = true /\ own_all true [gB; gA] = true /\
+  own_all true [rA (CCont 3); rB (CCont 3)] = true /\ own_all true [rA (CIdx 3); rB (CIdx 3)] = true /\
+  (* sharing remains where it is legitimate *)
+  (let '(st, xs) := write_cfields true [gA; gA; rA (CCont 3); rA (CCont 3)] st0 in map snd xs) =
+  [Some 3%nat; Some 3%nat; Some 5%nat; Some 5%nat].
+Proof. repeat split; vm_compute; reflexivity. Qed.
